@@ -7,10 +7,11 @@ CONSTANTS
   DelPats = {"alt"}
   PermPats = {"mid"}
   IntPerms = {"append"}
-  SibOpts = {"LR", "--"}
+  SibOpts = {"LR"}
   LsnClasses = {"4294967297"}
   KeyClasses = {"wide"}
   StaleOpts = {FALSE}
+  UpdFrom = {}
   SmallN = 1
   MaxOps = 5
   MaxUpd = 3
